@@ -223,6 +223,9 @@ package brontide
 //@   props C11
 //@   loop * havoc
 //@   bounds-safe
+//@   // the stream view never reads from an empty buffer (bytes.Buffer.Read would report io.EOF on a healthy connection after a
+//@   // zero-length message - finding F30): bytes are handed out only when the buffer holds some
+//@   site call Read: assert ret(Len, 0) != 0
 //@
 //@ func (c *Conn) Close
 //@   props C11
